@@ -243,8 +243,8 @@ def check_case(chk, case, obs, answers):
     # at the worker (the retry instants of the law below among them) and the end of the execution
     if a[0] == "ok" and m["status"] in ("SUCCEEDED", "FAILED") and "history" in obs:
         mode, hp, nev = enginerun.compare_history(case["machine"], m, obs["history"], len(obs["all_reqs"]), timed=True,
-                                                  request_instants=[q["t"] for q in obs["all_reqs"]])
-        nmode, np_ = enginerun.compare_notifications(m, obs["notes"], case["input"], timed=True)
+                                                  request_instants=[q["t"] for q in obs["all_reqs"]], requests=obs["all_reqs"])
+        nmode, np_ = enginerun.compare_notifications(m, obs["notes"], case["input"], timed=True, requests=obs["all_reqs"])
         chk.dist("timed_vs_Asl.run.%s" % mode)
         if hp or np_:
             chk.report("impl-differs-from-spec", cview, impl={"differences": (hp + np_)[:3], "mode": mode}, model={"endTime": m.get("endTime")},
